@@ -15,10 +15,10 @@ for d in sorted(glob.glob('/verif/seeded/c*_*')):
     first = ' '.join(notes.split('\n')[0:2])[:170].replace('|', '/')
     caught = []
     missed = []
-    for p, r in m.get('quick_checks', {}).items():
+    for p, r in (m.get('checks_run') or m.get('quick_checks') or {}).items():
         (caught if r.get('exit') == 1 else missed).append(p)
     claim = ''
-    for p, r in m.get('quick_checks', {}).items():
+    for p, r in (m.get('checks_run') or m.get('quick_checks') or {}).items():
         mm = re.search(r'claim=(\S+)', r.get('first', ''))
         if mm and r.get('exit') == 1:
             claim = mm.group(1)
